@@ -375,6 +375,25 @@ theorem c10_rate_check_linearizable (W r : Nat) (ts0 : List Nat) (clock : Nat) (
   · intro m now hm
     simp [rateCheck, rateCheckL, hm]
 
+/-- **A flood line of the protocol is a sequential history.**  What the model does for concurrent calls
+    (`Membrane.filterSeq`: the calls one after the other in the order in which the threads passed the critical
+    section) is literally the history `[filter c₁, filter c₂, …]` at one instant — so every theorem above that
+    quantifies over histories (replay memory, audit completeness, rate window, active signatures) covers floods. -/
+theorem c10_flood_is_sequential_history (env : Env) (cs : List (Nat × Str)) : ∀ (st : MSt),
+    (st.m.filterSeq (fun _ => env) st.now cs).1 = (mrun env st (cs.map fun p => .filter p.2)).1.m ∧
+    (mrun env st (cs.map fun p => .filter p.2)).1.now = st.now ∧
+    (st.m.filterSeq (fun _ => env) st.now cs).2.map (·.2) = (mrun env st (cs.map fun p => .filter p.2)).2.map (·.out) := by
+  induction cs with
+  | nil => intro st; simp [Membrane.filterSeq, mrun]
+  | cons p rest ih =>
+    intro st
+    obtain ⟨i, c⟩ := p
+    have h := ih ⟨(st.m.filter env st.now c).1, st.now⟩
+    simp only [Membrane.filterSeq, List.map_cons, mrun, mstep]
+    refine ⟨h.1, h.2.1, ?_⟩
+    simp only [Option.toList_some, List.singleton_append, List.map_cons]
+    rw [h.2.2]
+
 /-- **Rate window under floods.**  Take any sequential history on a fresh membrane with rate limit `r` (no
     re-assignment of the limit), then let any number of threads call `filter` concurrently — their
     `_check_rate_limit` executions interleaved statement by statement in any way, the clock advancing at any point.
